@@ -326,24 +326,3 @@ fn txoutwitness_lens() {
     kani::cover!(true);
 }
 }
-
-// ---- experiments (to be removed) ----
-ffi_proof! {
-fn exp_conc_1x1() {
-    ffi_models::init_accept_all();
-    let inp = TxIn {
-        previous_output: OutPoint { txid: Txid::from_byte_array([0u8; 32]), vout: 1 },
-        is_pegin: false,
-        script_sig: Script::from(vec![0u8; 1]),
-        sequence: Sequence(0),
-        asset_issuance: AssetIssuance::null(),
-        witness: TxInWitness::empty(),
-    };
-    let out = TxOut { asset: confidential::Asset::Null, value: confidential::Value::Explicit(5), nonce: confidential::Nonce::Null,
-        script_pubkey: Script::from(vec![0u8; 2]), witness: TxOutWitness::empty() };
-    let mut ins = ManuallyDrop::new([inp]);
-    let mut outs = ManuallyDrop::new([out]);
-    let tx = mk_tx(unsafe { spec::vec_over(&mut ins) }, unsafe { spec::vec_over(&mut outs) });
-    check_tx(tx);
-}
-}
